@@ -744,6 +744,24 @@ fn c05_store_short_raw_m8() { c05_store::<64, 32, false, 40>(8, 8) }
 fn c05_store_long_norm_m8() { c05_store::<64, 64, true, 40>(8, 8) }
 #[kani::proof]
 #[kani::unwind(150)]
+fn c05_store_short_raw_m16() { c05_store::<64, 32, false, 56>(16, 16) }
+#[kani::proof]
+#[kani::unwind(150)]
+fn c05_store_long_raw_m16() { c05_store::<64, 64, false, 56>(16, 16) }
+#[kani::proof]
+#[kani::unwind(150)]
+fn c05_store_long_norm_m16() { c05_store::<64, 64, true, 56>(16, 16) }
+#[kani::proof]
+#[kani::unwind(150)]
+fn c05_store_short_raw_m32() { c05_store::<64, 32, false, 88>(32, 32) }
+#[kani::proof]
+#[kani::unwind(150)]
+fn c05_store_long_raw_m32() { c05_store::<64, 64, false, 88>(32, 32) }
+#[kani::proof]
+#[kani::unwind(150)]
+fn c05_store_long_norm_m32() { c05_store::<64, 64, true, 88>(32, 32) }
+#[kani::proof]
+#[kani::unwind(150)]
 fn c05_store_short_raw_full() { c05_store::<64, 32, false, 116>(64, 32) }
 #[kani::proof]
 #[kani::unwind(150)]
@@ -814,6 +832,12 @@ where
 #[kani::proof]
 #[kani::unwind(66)]
 fn c05_alloc_forms_short_raw_m4() { c05_alloc_forms::<64, 32, false>(4) }
+#[kani::proof]
+#[kani::unwind(150)]
+fn c05_alloc_forms_short_raw_m1() { c05_alloc_forms::<64, 32, false>(1) }
+#[kani::proof]
+#[kani::unwind(150)]
+fn c05_alloc_forms_long_norm_m1() { c05_alloc_forms::<64, 64, true>(1) }
 #[cfg(feature = "alloc")]
 #[kani::proof]
 #[kani::unwind(66)]
